@@ -33,13 +33,13 @@ type PunctEntry struct {
 }
 
 type LexFacts struct {
-	Regexes  []*LexRegex
-	Punct    []PunctEntry
-	PunctVar types.Object
-	Keywords map[string]string // spelling -> token type name
+	Regexes     []*LexRegex
+	Punct       []PunctEntry
+	PunctVar    types.Object
+	Keywords    map[string]string // spelling -> token type name
 	KeywordsVar types.Object
-	TokenTypes map[string]int64 // constant name -> value
-	Tokenize *ast.FuncDecl
+	TokenTypes  map[string]int64 // constant name -> value
+	Tokenize    *ast.FuncDecl
 }
 
 func constString(info *types.Info, e ast.Expr) (string, bool) {
